@@ -49,6 +49,8 @@ pub enum HOp {
     ReleaseWrites,
     /// `memory().evict_all()`
     EvictMem,
+    /// `memory().resize(1)` followed by `memory().resize(<configured capacity>)`: everything is evicted by the shrink
+    ShrinkMem,
     Clear,
     /// `clear()` called while device writes are held at the io gate (released 30 ms later by another task): entries are
     /// queued / in flight in the flushers when the clear starts
@@ -247,6 +249,12 @@ impl Exec {
             }
             HOp::EvictMem => {
                 self.cache().memory().evict_all();
+                self.settle().await;
+            }
+            HOp::ShrinkMem => {
+                let _ = self.cache().memory().resize(1);
+                self.settle().await;
+                let _ = self.cache().memory().resize(self.cfg.mem_capacity);
                 self.settle().await;
             }
             HOp::Clear => {
